@@ -295,9 +295,46 @@ def oracle_R(inst, fixed, res, check_fixed):
             dx = (R[i][0] + R[i][1]) / 2 - F(inst.rects[i][0] + inst.rects[i][1], 2 * s)
             dy = (R[i][2] + R[i][3]) / 2 - F(inst.rects[i][2] + inst.rects[i][3], 2 * s)
             if max(abs(dx), abs(dy)) >= mean / 100:
-                fails.append({'what': 'fixed rectangle moved by more than 1% of the mean size', 'rect': i,
-                              'moved': [float(dx), float(dy)], 'mean_size': float(mean)})
+                fails.append({'what': 'fixed rectangle moved by more than 1% of the mean size', 'kind': 'fixed_moved', 'rect': i,
+                              'moved': [float(dx), float(dy)], 'mean_size': float(mean),
+                              'classifier': fixed_displaced_classifier(inst, fixed, R, i)})
     return fails
+
+
+FIXED_WEIGHT = 10000
+
+
+def fixed_displaced_classifier(inst, fixed, R, f):
+    """Is the displacement of fixed rectangle f explained by `fixed` being a weight of 10000 rather than a pin?
+    The last pass of each axis starts from the original coordinate and the solver puts every block at its weighted
+    mean, so inside a block sum_i w_i * delta_i = 0; hence a soft-weight displacement always satisfies
+        10000 * |delta_f| <= sum_{j != f} w_j * |delta_j|        (per axis, delta = final - original centre).
+    Returns {'explained': bool, 'family': 'fixed_overlap' | 'cluster', ...}; anything not explained stays a VIOLATION."""
+    s = inst.scale
+    n = inst.n()
+    w = [FIXED_WEIGHT if j in fixed else 1 for j in range(n)]
+    mean = sum(F(r[1] - r[0] + r[3] - r[2], 2 * s) for r in inst.rects) / n
+    explained, detail = True, {}
+    for axis, (a, b) in enumerate(((0, 1), (2, 3))):
+        d = [(R[j][a] + R[j][b]) / 2 - F(inst.rects[j][a] + inst.rects[j][b], 2 * s) for j in range(n)]
+        if abs(d[f]) < mean / 100:
+            continue
+        lhs = FIXED_WEIGHT * abs(d[f])
+        rhs = sum(w[j] * abs(d[j]) for j in range(n) if j != f)
+        ok = lhs <= rhs * (1 + F(1, 10 ** 6)) + F(1, 10 ** 9)
+        detail['xy'[axis]] = {'weight_times_displacement': float(lhs), 'sum_of_other_weighted_displacements': float(rhs), 'balanced': ok}
+        explained = explained and ok
+    xb, yb = F(inst.xb, s) + EXTRA_GAP, F(inst.yb, s) + EXTRA_GAP
+    r0 = inst.rects[f]
+    fam = 'cluster'
+    for g in fixed:
+        if g != f:
+            q = inst.rects[g]
+            ox = F(min(r0[1], q[1]) - max(r0[0], q[0]), s) + 2 * xb
+            oy = F(min(r0[3], q[3]) - max(r0[2], q[2]), s) + 2 * yb
+            if ox > 0 and oy > 0:
+                fam = 'fixed_overlap'
+    return {'explained': explained, 'family': fam, 'balance': detail}
 
 
 EXTRA_GAP = F(1e-3)
